@@ -1,5 +1,6 @@
 (* C18 — the stack extension is gated by its feature flag, and only it. *)
 From Lace Require Import Word Machine Isa Vm VmProofs Asm AsmFeat.
+From Lace Require Examples.
 Open Scope N_scope.
 
 (** Assembler: with the flag off, the result is either exactly the flag-on result (same image or
@@ -32,3 +33,10 @@ Theorem C18_vm_irrelevant : forall fuel st tr,
   run false fuel st tr = run true fuel st tr.
 Proof. exact run_feat_irrelevant. Qed.
 Print Assumptions C18_vm_irrelevant.
+
+(** Non-vacuity: a well-formed state and a 0xD word (hypotheses of C18_vm_off); a run that never
+    fetches a 0xD word (hypothesis of C18_vm_irrelevant). *)
+Example C18_nonvacuous :
+  wf Examples.ex_state /\ (54336 < W /\ 54336 / 4096 = 13) /\
+  Forall (fun aw : N * N => snd aw / 4096 <> 13) (snd (run true 10 Examples.ex_state nil)).
+Proof. split; [exact Examples.ex_wf|]. split; [exact Examples.ex_stack_word|exact Examples.ex_no_stack_fetch]. Qed.
